@@ -6,7 +6,7 @@ CFG = dict(
           "call took from the wire), C09_sticky and C09_failfast (a call reaching its fail-fast check or - the D-09 window - its registration "
           "after the failure returns the connection error in that step, without registering, writing or waiting) C09_after_fails (ONE trace theorem: a call started after the failure was recorded only ever returns the connection error, never registers / takes / succeeds, and has returned in every quiescent state) and (T) C09_measure / C09_terminates / C09_maximal_quiescent / C09_reaches_quiescent (every internal rule strictly decreases the measure mu: every run of internal rules is finite and ends, when maximal, in a quiescent state) in coq/Props/C09.v, over all label sequences of coq/Model/Client.v.",
     props="Props/C09.v",
-    theorems=["C09_settles", "C09_dead", "C09_loops", "C09_no_fabrication", "C09_sticky", "C09_failfast", "C09_after_fails", "C09_eof_not_success", "C09_exact_result",
+    theorems=["C09_settles", "C09_dead", "C09_loops", "C09_no_fabrication", "C09_sticky", "C09_failfast", "C09_after_fails", "C09_eof_not_success", "C09_exact_result", "C09_unrecorded_only_behind_a_full_queue",
               "C09_measure", "C09_terminates", "C09_maximal_quiescent", "C09_reaches_quiescent"],
     imports=["Model.Client", "Check.ClientC", "Check.ClientSpec", "Check.C09c"],
     case_type="c09case",
